@@ -55,8 +55,18 @@ def family(name, rnd, n, offset):
         return [dict(uid="%08x-%04x-4%03x-%04x-%012x" % (rnd.getrandbits(32), rnd.getrandbits(16), rnd.getrandbits(12),
                                                         0x8000 | rnd.getrandbits(14), rnd.getrandbits(48))) for _ in range(n)]
     if name == "uuid-time-ordered":
-        base = 0x018F0000000 + offset % 10**6
-        return [dict(uid="%011x-7%03x-8000-%012x" % (base + i // 16, i % 4096, 0xABCDEF000000 + i)) for i in range(n)]
+        # canonical 8-4-4-4-12 UUIDv7: 48-bit millisecond timestamp first, so the leading 32 bits hardly move
+        base = 0x018F00000000 + offset % 10**6
+        return [dict(uid="%08x-%04x-7%03x-%04x-%012x" % ((base + i // 16) >> 16, (base + i // 16) & 0xFFFF, i % 4096, 0x8000 | (i * 7) % 0x3FFF,
+                                                          0xABCDEF000000 + i)) for i in range(n)]
+    if name == "uuid-counter":
+        import uuid
+
+        return [dict(uid=str(uuid.UUID(int=offset + i))) for i in range(n)]
+    if name == "uuid-objects":
+        import uuid
+
+        return [dict(uid=uuid.UUID(int=(offset + i) * 2**64 + i)) for i in range(n)]
     if name == "email":
         firsts = ["anna", "bob", "carla", "dmitri", "eve", "farid", "gus", "hana"]
         hosts = ["example.com", "mail.example.org", "corp.example.net"]
@@ -78,7 +88,7 @@ def family(name, rnd, n, offset):
 
 
 BIG_OFFSET_FAMILIES = {"mirrored-fields", "sequential-int", "sequential-str", "two-field", "three-field", "email", "common-prefix"}
-FAMILIES = ["sequential-int", "sequential-str", "zero-padded", "uuid-random", "uuid-time-ordered", "email", "hex-session",
+FAMILIES = ["sequential-int", "sequential-str", "zero-padded", "uuid-random", "uuid-time-ordered", "uuid-counter", "uuid-objects", "email", "hex-session",
             "two-field", "three-field", "common-prefix", "float-ids", "mirrored-fields"]
 
 
